@@ -45,6 +45,8 @@ var concCurated = [][2]string{
 	{"-", "D2:r1[0],D2:r1[+]|D2:r1[+]"},                                    // nil interface value through Decode (no panic)
 	{"1>2", "D0:d[+],D0:r1[D0:d[+];+]|X0:d[+]"},                            // direct objects
 	{"1>2,2>3", "D0:r1[-]|D0:r2[+]|D1:r1[+]"},                              // errors are not cached; types are separate
+	{"-", "X0:r1[!]|X0:r1[+],X0:r1[+]"},                                    // the owner's function panics: waiters are released with an error, later calls start afresh
+	{"-", "X0:r1[X0:r2[!];+]|X0:r2[+]|X0:r1[+]"},                           // ... nested: both markers are released
 	{"-", "X2:r1[0],X2:r1[+]"},                                             // C18-F1 (fixed in e69b1c0): nil interface value, second exclusive decode; regression detector
 	{"-", "X2:r1[0]|X2:r1[+]"},                                             // C18-F1 (fixed): ... and the waiter
 	{"1>2", "D0:r2[+],D0:r1[+],P01:r1,D0:r1[+]"},                           // C18-F2: pair published on the head of a reference chain
@@ -173,10 +175,18 @@ func concGenProg(r *Rand, maxThreads int) (string, string) {
 
 // ---- the run
 
+// concMarkerLeak is set once a waiter was found hanging behind a panicked owner; further programs
+// of that kind are skipped (each would cost the watchdog's 8 s).
+var concMarkerLeak bool
+
 func concDoProgram(c *Ctx, gtext, ptext string, maxLeaves int, origin string) {
 	p, err := parseConcProg(ptext)
 	if err != nil {
 		panic(err)
+	}
+	if concMarkerLeak && p.fnPanic && p.hasExcl {
+		c.Stat("programs skipped: panicking exclusive owner (marker leak already reported)")
+		return
 	}
 	g, gmax := parseConcGetter(gtext)
 	poc := concPairOnChain(p, g)
@@ -211,6 +221,9 @@ func concDoProgram(c *Ctx, gtext, ptext string, maxLeaves int, origin string) {
 			c.Stat("has a deadlocking schedule (DecodeExclusive)")
 			break
 		}
+	}
+	if _, leak := ex.viol["excl-marker-not-released"]; leak {
+		concMarkerLeak = true
 	}
 	for key, desc := range ex.viol {
 		sched := "-"
